@@ -406,4 +406,37 @@ theorem parseLocation_coords (s : Bytes) (l : Loc) (r : Bytes) (hp : parseLocati
     exact h1 ▸ this.2 v rfl
   · cases hp
 
+/-- the text `4..7` meets the text-level hypothesis: `pars.Int` reads 4 at position 0, 7 at position 3, and fails
+at the other positions -/
+theorem intsIn_range47 : IntsIn [52, 46, 46, 55] := by
+  intro k stk v st' h
+  match k with
+  | 0 =>
+    have : int ⟨[52, 46, 46, 55], stk⟩ = (.ok 4, ⟨[46, 46, 55], stk⟩) := by
+      simp [int, skipWhile, trail, atoi, isDigit, digitsVal, P.bind_run, P.map_run, P.pure_run, Pars.push, getS, setS,
+        next, advance1]
+    simp only [List.drop_zero] at h
+    rw [this] at h
+    cases h
+    simp [RInt]
+  | 1 => simp [int_dot] at h; cases congrArg Prod.fst h
+  | 2 => simp [int_dot] at h; cases congrArg Prod.fst h
+  | 3 =>
+    have : int ⟨[55], stk⟩ = (.ok 7, ⟨[], stk⟩) := by
+      simp [int, skipWhile, trail, atoi, isDigit, digitsVal, P.bind_run, P.map_run, P.pure_run, Pars.push, getS, setS,
+        next, advance1]
+    simp only [List.drop_succ_cons, List.drop_zero] at h
+    rw [this] at h
+    cases h
+    simp [RInt]
+  | k + 4 => simp [int_nil] at h; cases congrArg Prod.fst h
+
+/-- the hypothesis is not trivial: the text `-5` (accepted as the point `-6`) does not meet it, nor does `0` -/
+theorem intsIn_zero_false : ¬ IntsIn [48] := by
+  intro h
+  have h0 : int ⟨[48], []⟩ = (.ok 0, ⟨[], []⟩) := by
+    simp [int, isDigit, P.bind_run, P.map_run, P.pure_run, Pars.push, Pars.drop, getS, setS, next, advance1]
+  have := h 0 [] 0 _ h0
+  simp [RInt] at this
+
 end Gts
